@@ -362,6 +362,44 @@ func (s *TermStore) foldBVBig(op Op, a, b *Term) *Term {
 	return s.BVBig(r, w)
 }
 
+func (s *TermStore) isBit(t *Term) bool {
+	_, hi := s.Interval(t)
+	return hi.Cmp(bigOne) <= 0
+}
+
+// bitProduct splits t = value * bit.
+func (s *TermStore) bitProduct(t *Term) (val, bit *Term) {
+	if t.Op != OMul {
+		return nil, nil
+	}
+	if !t.A[1].IsConst() && s.isBit(t.A[1]) {
+		return t.A[0], t.A[1]
+	}
+	if !t.A[0].IsConst() && s.isBit(t.A[0]) {
+		return t.A[1], t.A[0]
+	}
+	return nil, nil
+}
+
+func (s *TermStore) bitSelect(a, b *Term) *Term {
+	va, sa := s.bitProduct(a)
+	vb, sb := s.bitProduct(b)
+	if va == nil || vb == nil {
+		return nil
+	}
+	one := s.BV(1, sa.W)
+	isNeg := func(x, y *Term) bool { // y == x ^ 1
+		return y.Op == OXor && ((y.A[0] == x && y.A[1] == one) || (y.A[1] == x && y.A[0] == one))
+	}
+	switch {
+	case isNeg(sa, sb):
+		return s.Ite(s.Cmp(OEq, sa, one), va, vb)
+	case isNeg(sb, sa):
+		return s.Ite(s.Cmp(OEq, sb, one), vb, va)
+	}
+	return nil
+}
+
 // Bin builds a binary bit-vector operation.
 func (s *TermStore) Bin(op Op, a, b *Term) *Term {
 	if a.Sort != SBV || b.Sort != SBV {
@@ -376,6 +414,12 @@ func (s *TermStore) Bin(op Op, a, b *Term) *Term {
 	}
 	if a.IsConst() && b.IsConst() {
 		if r := s.foldBV(op, a, b); r != nil {
+			return r
+		}
+	}
+	if op == OOr {
+		// branch-free select  (A*s) | (B*(s^1))  with a one-bit s:  ite(s == 1, A, B)
+		if r := s.bitSelect(a, b); r != nil {
 			return r
 		}
 	}
@@ -961,6 +1005,16 @@ func (s *TermStore) Interval(t *Term) (*big.Int, *big.Int) {
 		hi = xh
 		if yh.Cmp(hi) < 0 {
 			hi = yh
+		}
+	case OXor, OOr:
+		_, xh := s.Interval(t.A[0])
+		_, yh := s.Interval(t.A[1])
+		n := xh.BitLen()
+		if yh.BitLen() > n {
+			n = yh.BitLen()
+		}
+		if n < int(t.W) {
+			hi = new(big.Int).Sub(pow2(uint(n)), bigOne)
 		}
 	case OURem:
 		_, yh := s.Interval(t.A[1])
